@@ -11,7 +11,7 @@ Open Scope Z_scope.
    expression (`matches`: second, minute, hour, month, year sets; day rules L, L-n, nW, LW, weekday
    sets, nL, n#k, see CsmSpec.day_match) and is a real calendar date and time. *)
 Theorem C01_nft_sound : forall f off prev ns,
-  wf_fields f = true -> -93600 <= off <= 93600 -> 0 <= prev <= max_nanos ->
+  wf_fields f = true -> -93600 <= off <= 93600 -> min_nanos <= prev <= max_nanos ->
   next_fire_time f off prev = Fire ns ->
   ns mod nanos = 0 /\ prev < ns <= max_nanos /\
   exists c, civil_from_unix off (ns / nanos) = Some c /\ matches f c = true /\ valid_civil c = true.
@@ -26,7 +26,7 @@ Print Assumptions C01_matches_only_real_dates.
 
 (* the same in every location given as a zone table with offsets within +-26h (C14 uses it too) *)
 Theorem C01_nft_sound_any_location : forall f z prev ns,
-  wf_fields f = true -> wf_zone z = true -> 0 <= prev <= max_nanos ->
+  wf_fields f = true -> wf_zone z = true -> min_nanos <= prev <= max_nanos ->
   next_fire_time_zone f z prev = Fire ns ->
   ns mod nanos = 0 /\ prev < ns <= max_nanos /\
   exists c, civil_from_unix (offset_at z (ns / nanos)) (ns / nanos) = Some c /\ matches f c = true /\ valid_civil c = true.
